@@ -39,18 +39,22 @@ class Mean(Aggregation):
         if len(new):
             totals = totals + new.sum()
             counts = counts + new.count()
-        if isinstance(counts, Number) and counts == 0:
-            counts = 1
-        return (totals, counts), totals / counts
+        return (totals, counts), self._mean(totals, counts)
 
     def on_old(self, acc, old):
         totals, counts = acc
         if len(old):
             totals = totals - old.sum()
             counts = counts - old.count()
+        return (totals, counts), self._mean(totals, counts)
+
+    @staticmethod
+    def _mean(totals, counts):
+        # the count kept in the state must stay the true count; the mean of
+        # no observation is NaN, as in pandas
         if isinstance(counts, Number) and counts == 0:
-            counts = 1
-        return (totals, counts), totals / counts
+            return float('nan')
+        return totals / counts
 
     def initial(self, new):
         s, c = new.sum(), new.count()
